@@ -771,14 +771,14 @@ def analyse(chk):
 
 def _move_baseline_call_up(text):
     call = "        self.apply_libxc_baseline_(f, df, rho_tuple, vrho_tuple)\n"
-    guard = "        if rhocut > 0:\n            cond = rho_tuple[0] < rhocut\n"
+    guard = "        if rhocut > 0:\n            cond = rho_tuple[0].shape[0] * rho_tuple[0] < rhocut\n"
     if text.count(call) != 1 or text.count(guard) != 1:
         return None
     return text.replace(call, "").replace(guard, call + guard)
 
 
 def _move_zeroing_to_end(text):
-    a = text.find("        if rhocut > 0:\n            cond = rho_tuple[0] < rhocut\n")
+    a = text.find("        if rhocut > 0:\n            cond = rho_tuple[0].shape[0] * rho_tuple[0] < rhocut\n")
     b = text.find("        self.apply_libxc_baseline_(f, df, rho_tuple, vrho_tuple)\n")
     c = "        dfdX0T = self.apply_descriptor_grad(X0T, df, force_polarize=True)\n"
     if a < 0 or b < a or text.count(c) != 1:
@@ -854,8 +854,8 @@ def mutants(tree):
         Mutant("cider_ind_clip: lower clamp dropped", CC_REL, "di_g[g] = (cond ? di : 0);", "di_g[g] = di;",
                expect="index-clip"),
         Mutant("v1: per-spin SEP mask merged into the summed-density mask", XE,
-               "            if self.mode == \"SEP\":\n                cond = X0T[:, 0] < rhocut\n                for s in range(X0T.shape[0]):\n                    res[s][cond[s]] = 0.0\n                    dres[s][:, cond[s]] = 0.0\n            else:\n                cond = X0T[:, 0].sum(0) < rhocut\n                res[..., cond] = 0.0\n                dres[..., cond] = 0.0\n",
-               "            cond = X0T[:, 0].sum(0) < rhocut\n            res[..., cond] = 0.0\n            dres[..., cond] = 0.0\n",
+               "            if self.mode == \"SEP\":\n                cond = X0T[:, 0] < rhocut\n                for s in range(X0T.shape[0]):\n                    res[s][cond[s]] = 0.0\n                    dres[s][:, cond[s]] = 0.0\n            else:\n                cond = X0T[:, 0].mean(0) < rhocut\n                res[..., cond] = 0.0\n                dres[..., cond] = 0.0\n",
+               "            cond = X0T[:, 0].mean(0) < rhocut\n            res[..., cond] = 0.0\n            dres[..., cond] = 0.0\n",
                expect="cutoff-pair"),
         Mutant("v2: SEP value and derivative zeroed under the summed-density mask", XE2,
                "            if self.mode == \"SEP\":\n                f[cond] = 0.0\n                df[cond] = 0.0\n",
@@ -865,6 +865,8 @@ def mutants(tree):
                "                    res[s][cond[s]] = 0.0\n                    dres[s][:, cond[s]] = 0.0\n",
                "                    res[s][cond[s]] = 0.0\n                dres[s][:, cond[s]] = 0.0\n",
                expect="stale-loop-var"),
+        Mutant("v2 POL: derivative cut only under the spin-scaled per-spin mask (not a superset of the value mask)", XE2,
+               "df[cond | scond, :] = 0.0", "df[cond, :] = 0.0", expect="cutoff-pair"),
         Mutant("zero only res under rhocut", XE, "                res[..., cond] = 0.0\n                dres[..., cond] = 0.0\n",
                "                res[..., cond] = 0.0\n", expect="cutoff-pair"),
         Mutant("zero only f under rhocut (v2 SEP)", XE2, "                f[cond] = 0.0\n                df[cond] = 0.0\n", "                f[cond] = 0.0\n",
